@@ -1,11 +1,11 @@
 #!/usr/bin/env python3
-"""seedtable.py: markdown table of the stored seeds (round 3: ids 4..6) from their meta.json."""
+"""seedtable.py: markdown table of the stored seeds (round 3: ids 4..6, round 4: ids 7, 8) from their meta.json."""
 import glob, json, os, re
 props = sorted({os.path.basename(d.rstrip('/')).split('-')[0] for d in glob.glob('/verif/seeded/*/')})
-print('| property | 4 | 5 | 6 |'); print('|----------|---|---|---|')
+print('| property | 4 | 5 | 6 | 7 | 8 |'); print('|----------|---|---|---|---|---|')
 for p in props:
     cells = []
-    for i in (4, 5, 6):
+    for i in (4, 5, 6, 7, 8):
         f = f'/verif/seeded/{p}-{i}/meta.json'
         if not os.path.exists(f):
             cells.append('-'); continue
